@@ -12,7 +12,10 @@
 //!   `e`                                                 `Array::erase_chunk`
 //! The driver (lean/ZarrsModel/Driver/C05Chain.lean) replays the history with `ChainS.partialEncode`, each step starting from
 //! the implementation's previous stored value.
-//! `c05 pesr …` (only generated with VERIF_PES_REUSE=1): the same with `P` steps; an observation, not part of the default run.
+//! `c05 pesr …`: the same with `P` steps (a call `E` = the encoder's `erase()`): a partial encoder that is KEPT must behave like a
+//! fresh one per call. Binding for unsharded chains and for chains whose outermost stage is the sharding codec (the cached
+//! `shard_index` is the state the property names); chains with a stage in front of a sharding codec read through a partial
+//! decoder created with the handle (known finding F-C05-K2).
 use crate::arr::{dtypes, parse_elems, parse_subset, show_elems, to_array_bytes, DType};
 use crate::c03c::codecs_json;
 use crate::util::*;
@@ -79,6 +82,7 @@ fn run_step(array: &Arr, es: usize, idx: &[u64], step: &str) -> String {
             let pe = match array.partial_encoder(idx, &popts) { Ok(pe) => pe, Err(e) => return res::<zarrs::array::ArrayError>(Err(e)) };
             let mut out = "ok".to_string();
             for call in rest.split('/') {
+                if call == "E" { if pe.erase().is_err() { out = "err".into(); } continue; }
                 let ws = parse_writes(es, call);
                 let refs: Vec<(&ArraySubset, ArrayBytes<'_>)> = ws.iter().map(|(r, b)| (r, b.clone())).collect();
                 if pe.partial_encode(&refs, &popts).is_err() { out = "err".into(); }
@@ -344,7 +348,8 @@ fn gen_chain(rng: &mut Rng, dt: &DType, fill: &[u8]) -> Option<(String, Vec<u64>
 pub fn generate(tier: &str, seed: u64) -> Vec<String> {
     let mut rng = Rng::new(seed ^ 0xC05C);
     let ncases = if tier == "thorough" { 16000 } else { 3200 };
-    let reuse = std::env::var("VERIF_PES_REUSE").is_ok();
+    // (own stream, so that the `pes` lines stay as they were) kept partial encoders
+    let mut rr = Rng::new(seed ^ 0xC05C_4E);
     let dts: Vec<DType> = dtypes().into_iter().filter(|d| d.es.is_some() && d.name != "bool").collect();
     let mut out = vec![];
     let mut k = 0;
@@ -364,12 +369,14 @@ pub fn generate(tier: &str, seed: u64) -> Vec<String> {
             out.push(format!("c05 pes {} hist={}", base, h.join(";")));
             k += 1;
         }
-        if reuse {
+        if rr.chance(1, 3) {
             // ONE partial encoder object for several consecutive calls
+            let rng = &mut rr;
             let mut h: Vec<String> = vec![];
-            if rng.chance(1, 2) { h.push(g.f(&mut rng, Mode::Mixed)); }
-            let calls: Vec<String> = (0..rng.range(2, 4)).map(|_| { let r = if rng.chance(1, 2) { g.one(&mut rng, false) } else { g.subset(&mut rng) }; let m = if rng.chance(1, 4) { Mode::Fill } else { Mode::NonFill }; g.write(&mut rng, &r, m) }).collect();
+            if rng.chance(1, 2) { h.push(g.f(rng, Mode::Mixed)); }
+            let calls: Vec<String> = (0..rng.range(2, 5)).map(|_| { if rng.chance(1, 6) { return "E".to_string(); } let r = if rng.chance(1, 2) { g.one(rng, false) } else { g.subset(rng) }; let m = if rng.chance(1, 4) { Mode::Fill } else { Mode::NonFill }; g.write(rng, &r, m) }).collect();
             h.push(format!("P:{}", calls.join("/")));
+            if rng.chance(1, 2) { let r = g.subset(rng); h.push(g.s(rng, &r, Mode::NonFill)); }
             out.push(format!("c05 pesr {} hist={}", base, h.join(";")));
         }
     }
